@@ -153,6 +153,7 @@ func replay(path string) {
 		Replay struct {
 			Config string      `json:"config"`
 			Grid   *gridCase   `json:"grid"`
+			Batch  *batchCase  `json:"batch"`
 			Ops    []membuf.Op `json:"ops"`
 		} `json:"replay"`
 	}
@@ -167,6 +168,15 @@ func replay(path string) {
 		}
 		fmt.Printf("replay of grid case %+v: %d oracle failures\n", *f.Replay.Grid, len(vs))
 		run.Finish(ev.Coverage{"states": 1, "transitions": 1, "replayed": path}, nil)
+	}
+	if f.Replay.Batch != nil {
+		var ops int64
+		vs := f.Replay.Batch.run(nil, &ops)
+		for _, v := range vs {
+			run.Violation(v.Key, v.What, map[string]any{"batch": f.Replay.Batch})
+		}
+		fmt.Printf("replay of batchscan case %+v: %d oracle failures\n", *f.Replay.Batch, len(vs))
+		run.Finish(ev.Coverage{"states": 1, "transitions": ops, "replayed": path}, nil)
 	}
 	for _, c := range append(configs(true), ufConfigs()...) {
 		if c.Name != f.Replay.Config {
@@ -213,6 +223,21 @@ func main() {
 	per := map[string]any{}
 	bounds := map[string]any{}
 	only := os.Getenv("VERIF_C08_ONLY") // debugging aid: run a single config
+	// part batchscan runs first: it is short, and the wall budget of a loaded machine must not cut it
+	var bsc batchStats
+	if only == "" || only == "batchscan" {
+		t0 := time.Now()
+		bsc = runBatchScan(run.Thorough())
+		if bsc.Stopped {
+			run.Incomplete("part batchscan cut by the time budget")
+		}
+		per["batchscan"] = map[string]any{"cases": bsc.Cases, "distinct_contents": bsc.States, "scans_compared_per_buffer": bsc.Scans, "scans_by_batches_needed": bsc.byBatches,
+			"scans_of_3+_batches_with_a_later_batch_ending_on_a_shorter_key": bsc.NonTrivial, "distinct_resume_profiles": bsc.Profiles, "real_ops": bsc.RealOps,
+			"batched_scans_with_staging_written_mid_scan": bsc.MidScans, "of_these_ended_with_a_loud_error": bsc.MidLoud}
+		bounds["batchscan"] = bsc.bounds
+		fmt.Fprintf(os.Stderr, "c08: batchscan cases=%d contents=%d scans=%d by-batches=%v nontrivial(3+ batches, shrinking batch end)=%d resume-profiles=%d mid-scan-writes=%d(loud %d) real-ops=%d violations=%d wall=%.1fs\n",
+			bsc.Cases, bsc.States, bsc.Scans, bsc.byBatches, bsc.NonTrivial, bsc.Profiles, bsc.MidScans, bsc.MidLoud, bsc.RealOps, bsc.Violations, time.Since(t0).Seconds())
+	}
 	for _, c := range configs(run.Thorough()) {
 		if only != "" && only != c.Name || c.Depth == 0 {
 			continue
@@ -249,11 +274,14 @@ func main() {
 	pprof.StopCPUProfile()
 
 	run.Finish(ev.Coverage{
-		"states":                        tot.States + g.Steps + uf.States,
-		"transitions":                   tot.RealOps + g.RealOps + uf.RealOps,
-		"traces_validated_against_impl": tot.Transitions + g.Cases + uf.Histories,
-		"evaluations":                   tot.Transitions + g.Steps + uf.Histories,
-		"distinct_nontrivial":           tot.NonTrivial + g.Cases + uf.NonTrivial,
+		"states":                        tot.States + g.Steps + uf.States + int64(bsc.States),
+		"transitions":                   tot.RealOps + g.RealOps + uf.RealOps + bsc.RealOps,
+		"traces_validated_against_impl": tot.Transitions + g.Cases + uf.Histories + bsc.Cases,
+		"evaluations":                   tot.Transitions + g.Steps + uf.Histories + bsc.Scans,
+		"distinct_nontrivial":           tot.NonTrivial + g.Cases + uf.NonTrivial + int64(bsc.NonTrivial),
+		"batchscan_cases":               bsc.Cases,
+		"batchscan_scans":               bsc.Scans,
+		"batchscan_nontrivial_scans":    bsc.NonTrivial,
 		"distinct_outcomes":             tot.Outcomes + uf.Outcomes,
 		"histories_executed":            tot.Transitions + uf.Histories,
 		"undoflags_cases":               uf.Cases,
@@ -272,8 +300,13 @@ func main() {
 			"[quick: persistent-flag op + non-persistent-flag op, and pairs touching a common flag bit in both orders; thorough: all ordered pairs, two writes in the scope]) x every ending (Cleanup/Release per level, RevertToCheckpoint) x " +
 			"re-write of the key (Set, Delete, UpdateFlags(), UpdateFlags(set persistent), UpdateFlags(del non-persistent), SetWithFlags; directly and inside a fresh level); every prefix from the write on is one " +
 			"history executed on fresh buffers with the full observation set incl. the committer's view; its states = distinct (model state + ghosts) digests, non-trivial = holds an undone key that nobody has re-written yet, or reached by re-writing one; " +
-			"fan-out grid: n siblings under one prefix for n in {3,4,5,15,16,17,47,48,49,255,256} x 3 orders x prefixes x in-place leaf x 3 ways down, observed after each step",
-		"samples": append(samples.List(), uf.samples...),
+			"fan-out grid: n siblings under one prefix for n in {3,4,5,15,16,17,47,48,49,255,256} x 3 orders x prefixes x in-place leaf x 3 ways down, observed after each step; " +
+			"part batchscan (snapshot scans spanning several batches of the batched snapshot iterator, batch sizes 32, 64, 128, ...): key sets of 130 and 260 (thorough also 520) variable-length keys = runs of 7-9 byte filler keys + " +
+			"clusters {s, s+00, s+0000, s+01, s+'0', s+'A', s+'a', s+FF} around the short keys \"b\", \"dddd\" (and \"\"), the number of fillers before the first cluster sliding over EVERY value (so each cluster key is the last key of the 1st/2nd/3rd batch of some scan), " +
+			"base level with deleted holes x open staging level {empty, overlay in two nested levels: overwrites, deletes, staged-only keys between the cluster keys, overlay written while batched iterators over every bound pair stand after 31 / 100 (thorough: 31 / 40 / 100) keys (they must finish equal to the reference or end with an error)}; every ordered bound pair of a 7-element pool x forward/reverse x " +
+			"{BatchedSnapshotIter, ForEachInSnapshotRange, SnapshotIter/SnapshotIterReverse} on ART and RBT compared with the snapshot view of the reference model; nothing is merged in this part (the iterator's resume buffer is implementation state the model lacks), " +
+			"its states = distinct contents, evaluations = scans compared, non-trivial = a scan that needs >= 3 batches in which a later batch ends on a shorter key than an earlier one",
+		"samples": append(append(samples.List(), uf.samples...), bsc.samples...),
 		"bounds":  bounds,
 	}, []string{
 		"a RevertToCheckpoint is issued only for a live checkpoint that no open staging level starts after; Release/Cleanup only for the top handle, handle 0 or a stale handle (documented panics are not provoked)",
